@@ -23,6 +23,11 @@ func (v Var) IsSlice() bool {
 	return ok
 }
 
+// Type returns the type of the variable.
+func (v Var) Type() types.Type {
+	return v.vr.Type()
+}
+
 // TypeString returns the variable type with the package qualifier in the
 // format 'pkg.Type'.
 func (v Var) TypeString() string {
